@@ -8,7 +8,7 @@
 
    The reified predicates follow src/lib/reif.pl clause by clause; \=/2 is aware of dif constraints, as in the
    implementation (the attribute hooks run inside it).  No proofs in this file. *)
-From Coq Require Import ZArith NArith List Bool.
+From Coq Require Import ZArith NArith List Bool Ascii String.
 From V Require Import Base.Term C10.Model C26.Model.
 Import ListNotations.
 
@@ -286,7 +286,7 @@ Definition spec_instances (pre : list (N * term)) (k : core) (post : list (N * t
                      then map (fun o => map g [0; 1; 2]%N ++ o) (expected k g) else [])
            (assignments [0; 1; 2]%N).
 
-Definition count_t (x : list term) (l : list (list term)) : nat := length (filter (tlist_eqb x) l).
+Definition count_t (x : list term) (l : list (list term)) : nat := List.length (filter (tlist_eqb x) l).
 
 (* exact: every expected ground instance is covered by exactly one answer and nothing else is covered;
    otherwise: covered at least once and nothing else is covered *)
@@ -327,3 +327,139 @@ Definition vo1 : term := Var o1. Definition vo2 : term := Var o2.
 Definition w0 : term := Var 0. Definition w1 : term := Var 1. Definition w2 : term := Var 2. Definition w3 : term := Var 3.
 Definition w4 : term := Var 4. Definition w5 : term := Var 5. Definition w6 : term := Var 6. Definition w7 : term := Var 7.
 Definition tcons' : term -> term -> term := tcons.
+
+(* ------------------------------------------------------------------ compact text form of a case
+   (Coq elaborates one string literal much faster than the same case written with constructors; the check writes its
+   cases in this form and cross-checks a sample against the constructor form)
+
+   terms, prefix:   a b  f<t>  x y z (Var 0 1 2)  p q (the outputs Var 10, Var 11)  0..9 (Var 0..9 in answers)
+                    T F (true false)  t e (then else)  n ([])  c<h><t> (list cell)
+   conditions:      =<t><t>  #<t><t> (dif)  &<c><c>  |<c><c>
+   case:            <pre> / <kind><core> / <post> / <answer> ; <answer> ; ...
+                    pre, post: <var><value>...      answer: <bindings> , <dif terms, two per constraint>
+                    kind: I if_  D reified disjunction  P plain disjunction (then a condition)
+                          L tfilter  R tpartition  M memberd_t  E tmember (then the term X and the elements) *)
+Local Open Scope char_scope.
+
+Definition step_term (c : ascii) (st : option (list term)) : option (list term) :=
+  match st with
+  | None => None
+  | Some stk =>
+      match c with
+      | "a" => Some (a_a :: stk) | "b" => Some (a_b :: stk)
+      | "x" => Some (Var 0 :: stk) | "y" => Some (Var 1 :: stk) | "z" => Some (Var 2 :: stk)
+      | "p" => Some (Var o1 :: stk) | "q" => Some (Var o2 :: stk)
+      | "0" => Some (Var 0 :: stk) | "1" => Some (Var 1 :: stk) | "2" => Some (Var 2 :: stk) | "3" => Some (Var 3 :: stk)
+      | "4" => Some (Var 4 :: stk) | "5" => Some (Var 5 :: stk) | "6" => Some (Var 6 :: stk) | "7" => Some (Var 7 :: stk)
+      | "8" => Some (Var 8 :: stk) | "9" => Some (Var 9 :: stk)
+      | "T" => Some (a_true :: stk) | "F" => Some (a_false :: stk)
+      | "t" => Some (a_then :: stk) | "e" => Some (a_else :: stk)
+      | "n" => Some (tnil :: stk)
+      | "f" => match stk with t :: r => Some (af t :: r) | _ => None end
+      | "c" => match stk with h :: t :: r => Some (tcons h t :: r) | _ => None end
+      | _ => None
+      end
+  end.
+Definition parse_terms (s : list ascii) : option (list term) := fold_right step_term (Some []) s.
+
+Definition step_cond (c : ascii) (st : option (list term * list rcond)) : option (list term * list rcond) :=
+  match st with
+  | None => None
+  | Some (ts, cs) =>
+      match c with
+      | "=" => match ts with a :: b :: r => Some (r, REq a b :: cs) | _ => None end
+      | "#" => match ts with a :: b :: r => Some (r, RDif a b :: cs) | _ => None end
+      | "&" => match cs with a :: b :: r => Some (ts, RAnd a b :: r) | _ => None end
+      | "|" => match cs with a :: b :: r => Some (ts, ROr a b :: r) | _ => None end
+      | _ => match step_term c (Some ts) with Some ts' => Some (ts', cs) | None => None end
+      end
+  end.
+Definition parse_cond (s : list ascii) : option rcond :=
+  match fold_right step_cond (Some ([], [])) s with
+  | Some ([], [c]) => Some c
+  | _ => None
+  end.
+
+Fixpoint split_on (sep : ascii) (s : list ascii) : list (list ascii) :=
+  match s with
+  | [] => [[]]
+  | c :: r => let rest := split_on sep r in
+              if Ascii.eqb c sep then [] :: rest
+              else match rest with h :: t => (c :: h) :: t | [] => [[c]] end
+  end.
+
+Fixpoint pair_up {A : Type} (l : list A) : option (list (A * A)) :=
+  match l with
+  | [] => Some []
+  | a :: b :: r => match pair_up r with Some p => Some ((a, b) :: p) | None => None end
+  | _ => None
+  end.
+
+Fixpoint to_bindings (l : list (term * term)) : option (list (N * term)) :=
+  match l with
+  | [] => Some []
+  | (Var x, v) :: r => match to_bindings r with Some b => Some ((x, v) :: b) | None => None end
+  | _ => None
+  end.
+
+Definition parse_bindings (s : list ascii) : option (list (N * term)) :=
+  match parse_terms s with
+  | Some ts => match pair_up ts with Some ps => to_bindings ps | None => None end
+  | None => None
+  end.
+
+Definition parse_core (s : list ascii) : option core :=
+  match s with
+  | "I" :: r => option_map KIf (parse_cond r)
+  | "D" :: r => option_map KDisj (parse_cond r)
+  | "P" :: r => option_map KPlain (parse_cond r)
+  | k :: r =>
+      match parse_terms r with
+      | Some (x :: l) =>
+          match k with
+          | "L" => Some (KTfilter x l) | "R" => Some (KTpartition x l) | "M" => Some (KMemberd x l) | "E" => Some (KTmember x l)
+          | _ => None
+          end
+      | _ => None
+      end
+  | [] => None
+  end.
+
+Definition parse_answer (s : list ascii) : option answer :=
+  match split_on "," s with
+  | [b; d] => match parse_terms b, parse_terms d with
+              | Some bs, Some ds => match pair_up ds with Some ps => Some (bs, ps) | None => None end
+              | _, _ => None
+              end
+  | _ => None
+  end.
+
+Fixpoint parse_answers (l : list (list ascii)) : option (list answer) :=
+  match l with
+  | [] => Some []
+  | s :: r => match parse_answer s, parse_answers r with
+              | Some a, Some rs => Some (a :: rs)
+              | _, _ => None
+              end
+  end.
+
+Definition decode (s : string) : option (list (N * term) * core * list (N * term) * list answer) :=
+  match split_on "/" (list_ascii_of_string s) with
+  | [pre; k; post; ans] =>
+      match parse_bindings pre, parse_core k, parse_bindings post,
+            (match ans with [] => Some [] | _ => parse_answers (split_on ";" ans) end) with
+      | Some p, Some c, Some q, Some a => Some (p, c, q, a)
+      | _, _, _, _ => None
+      end
+  | _ => None
+  end.
+
+Definition on_case (f : list (N * term) -> core -> list (N * term) -> list answer -> bool) (s : string) : bool :=
+  match decode s with
+  | Some (p, c, q, a) => f p c q a
+  | None => false
+  end.
+Definition check_case_s : string -> bool := on_case check_case.
+Definition chk_model_s : string -> bool := on_case chk_model.
+Definition chk_ground_s : string -> bool := on_case chk_ground.
+Definition model_ground_ok_s : string -> bool := on_case (fun p c q _ => model_ground_ok p c q).
